@@ -10,7 +10,7 @@ C12_EVENTS = ("fpid", "npid", "fpidk")
 
 def run_fuzzy(ck, sc, tier):
     q = tier == "quick"
-    cfg = vlib.write_cfg(sc.path("fz.cfg"), ["CONSTANTS Grid = %s" % ("{0, 1, 2, 4}" if q else "{0, 1, 2, 3, 4}"), " XNum <- %s" % ("XNumQ" if q else "XNumT"),
+    cfg = vlib.write_cfg(sc.path("fz.cfg"), ["CONSTANTS Grid = %s" % ("{0, 1, 2, 4}" if q else "{0, 1, 2, 3, 4, 5, 6}"), " XNum <- %s" % ("XNumQ" if q else "XNumT"),
                                               "INIT Init", "NEXT Next", "INVARIANT Inv", "ACTION_CONSTRAINT Emit", "CHECK_DEADLOCK FALSE"])
     out = sc.path("fz.out")
     res = tlc(os.path.join(SPECDIR, "FuzzyMC.tla"), cfg, sc, timeout=1800, heap="8g", capture_prefix="4040404", stdout_path=out)
@@ -18,7 +18,7 @@ def run_fuzzy(ck, sc, tier):
     ck.add_tlc(res, "membership_shape_facts_and_operator_laws")
     exe = vlib.cc_build(sc.path("fuzzy_h"), [os.path.join(vlib.HARNESS, "fuzzy_h.c")] +
                         vlib.repo_src("mf.c", "fuzzy.c", "pid.c", "pid_fuzzy.c", "pid_neuro.c", "math.c", "a.c"), sc)
-    r = vlib.run_harness([exe, out, sc.path("fz"), "14", str(ck.seed)], timeout=1800)
+    r = vlib.run_harness([exe, out, sc.path("fz"), "14", str(ck.seed), "1" if q else "40"], timeout=1800)
     m = re.search(r"^SUMMARY (\{.*\})$", r.stdout or "", re.M)
     if r.returncode != 0 or not m:
         if r.returncode in (97, 98, 99, -6, -11) or "Sanitizer" in (r.stderr or ""):
